@@ -188,7 +188,7 @@ SPECS["C08"] = dict(
     rule="TODO",
     exhaustive_all=True,
     jobs=[
-        plain("TestC08Grid", sq=4, st=16, env={"C08_CONTENTS": {Q: 3, T: 8}}),
+        plain("TestC08Grid", sq=4, st=16, env={"C08_CONTENTS": {Q: 3, T: 8}, "C08_KEYS": {Q: 1, T: 12}}),
         plain("TestC08AEAD", sq=1, st=1),
         plain("TestC08Concurrent", sq=1, st=4, env={"C08_ROUNDS": {Q: 60, T: 2000}}),
     ],
